@@ -162,7 +162,7 @@ def flat_model(draw, opts):
     has_q = draw(st.integers(0, 4)) > 0
     has_pa = draw(st.integers(0, 3)) > 0
     has_n = draw(st.integers(0, 3)) > 0
-    has_pb = draw(st.integers(0, 3)) == 0
+    has_pb = draw(st.integers(0, 2)) == 0
     has_c = draw(st.integers(0, 4)) > 0
     # a constant whose value is an expression of a constant needs one of the two options (else
     # the fresh compile cannot build its metadata function: not this property)
@@ -246,6 +246,9 @@ def flat_model(draw, opts):
                 continue
             if a == "fixed":
                 e = ["bool", draw(st.booleans())]
+                if has_pb and draw(st.booleans()):
+                    e = V("pb")  # fixed given by a Boolean parameter
+                    feats.add("attr_gen:fixed_by_parameter")
             elif type_ == "Boolean":
                 e = ["bool", draw(st.booleans())]
             elif type_ == "Integer":
